@@ -168,12 +168,18 @@ proof!(c13_raw_bytes => raw_bytes);
 /// The quote chosen for a string is one of the two quote characters, and is a character absent
 /// from the value whenever one of the two is absent.
 pub fn quote_symbol<S: Source>(s: &mut S) {
+    quote_symbol_sized::<S, 4>(s)
+}
+pub fn quote_symbol_8<S: Source>(s: &mut S) {
+    quote_symbol_sized::<S, 8>(s)
+}
+fn quote_symbol_sized<S: Source, const N: usize>(s: &mut S) {
     let (bytes, len) = {
         let len = s.any_usize();
-        s.assume(len <= 4);
-        let mut bytes = [0u8; 4];
+        s.assume(len <= N);
+        let mut bytes = [0u8; N];
         let mut i = 0;
-        while i < 4 {
+        while i < N {
             bytes[i] = s.any_u8();
             i += 1;
         }
@@ -194,6 +200,7 @@ pub fn quote_symbol<S: Source>(s: &mut S) {
     // (choosing the quote that avoids escapes is an optimisation, not part of the property)
 }
 proof!(#[kani::unwind(6)] c13_quote_symbol => quote_symbol);
+proof!(#[kani::unwind(10)] c13_quote_symbol_8 => quote_symbol_8);
 
 /// H-C13-special-floats: `Expression::from` on NaN, infinities and zeros builds `0/0`, `1/0`,
 /// `-1/0` (unary minus of `1`) and keeps the sign of zero.
@@ -277,3 +284,54 @@ pub fn sort_char_order<S: Source>(s: &mut S) {
     claim!(s, !(ab == Equal && bc == Less) || ac == Less, "equivalent characters compare alike");
 }
 proof!(c12_sort_char_order => sort_char_order);
+
+// ------------------------------------------------------------------------------------------ C13 quoting
+/// `escape` builds its text with `format!` (out of reach): a fixed two-character marker `\?`.
+#[cfg(kani)]
+pub fn escape_stub(_character: u8, _next: Option<u8>) -> String {
+    String::from("\\?")
+}
+
+/// H-C13-quoted: the quoted form of a short ASCII string opens and closes with the chosen quote,
+/// never contains that quote unescaped, and writes raw only bytes a Lua lexer reads as themselves.
+pub fn quoted_form<S: Source>(s: &mut S) {
+    let len = s.any_usize();
+    s.assume(len >= 1 && len <= 2);
+    let bytes = [s.any_u8(), s.any_u8()];
+    s.assume(bytes[0] < 0x80 && bytes[1] < 0x80);
+    let value = &bytes[..len];
+    let written = utils::write_quoted(value);
+    let text = written.as_bytes();
+    note!(s, "write_quoted({:?}) = {:?}", value, written);
+    let n = text.len();
+    observe!(n > len + 2, "some byte is escaped");
+    claim!(s, n >= 2 && (text[0] == b'\'' || text[0] == b'"') && text[n - 1] == text[0], "a quoted string opens and closes with the same quote character");
+    if n >= 2 {
+        let quote = text[0];
+        let mut i = 1;
+        let mut ok = true;
+        let mut escaped = false;
+        while i + 1 < n {
+            let c = text[i];
+            if escaped {
+                escaped = false;
+            } else if c == b'\\' {
+                escaped = true;
+            } else {
+                // a raw byte: not the quote, printable
+                ok &= c != quote && c >= 0x20 && c <= 0x7e;
+            }
+            i += 1;
+        }
+        claim!(s, ok && !escaped, "inside the quotes every quote character and every non-printable byte is written as an escape");
+    }
+    core::mem::forget(written);
+}
+
+#[cfg(kani)]
+#[kani::proof]
+#[kani::unwind(8)]
+#[kani::stub(darklua_core::generator::utils::escape, crate::c_scalar::escape_stub)]
+fn c13_quoted_form() {
+    quoted_form(&mut crate::source::KaniSource);
+}
